@@ -9,6 +9,13 @@ Two oracles on generated models x 3 worlds:
      inverse() must restore d.qacc to it.
   II differential: qfrc_inverse vs mujoco.mj_inverse fed with the *same* float32 state and the same qacc (so the forward
      solvers' tolerances do not enter), gated on equal constraint row counts.
+
+The 'nl' family drives the non-linear passive terms through both oracles: polynomial joint damping (MJCF
+damping="b p0 p1" -> dof_dampingpoly, including joints whose linear coefficient is 0 and models where every linear
+coefficient is 0), polynomial joint stiffness (jnt_stiffnesspoly), polynomial tendon damping / stiffness, tendon armature,
+for every integrator x INVDISCRETE x EULERDAMP on/off, and with the DAMPER / SPRING disable flags.  With these terms the
+integrators' implicit damping matrix (d force / d velocity) differs from the damping coefficient (force / velocity), so a
+discrete->continuous conversion that is not the exact inverse of the step's update becomes visible.
 """
 
 import mujoco
@@ -23,20 +30,29 @@ RULE = (
   "case=(kind,seed,integrator,invdiscrete): kind 'free' = constraint-free generated tree with springs/dampers/gravcomp/fluid/"
   "tendons/actuators (ctrl inside and far outside ctrlrange, no muscles) and random qfrc_applied/xfrc_applied; 'soft' = plus limits, "
   "equalities, frictionloss; 'contact' = free bodies resting on a plane; 3 worlds with different random states. "
-  "Non-trivial: nv>=2 and both oracles evaluated on >=1 world; distinct by hash(xml, flags, states)."
+  "nl=1 cases ('nlfree'/'nlsoft'/'nlflag' ids): the compiled model additionally gets random polynomial damping / stiffness "
+  "coefficients on joints and tendons (what MJCF damping=\"b p0 p1\" / stiffness=\"k p0 p1\" compile to; linear part sometimes 0 "
+  "on one joint or on all), more tendons with damping and armature; 'nlflag' also sets the DAMPER or SPRING disable flag. "
+  "Non-trivial: nv>=2 and both oracles evaluated on >=1 world; distinct by hash(xml, coefficients, flags, states)."
 )
 ASSUMPTIONS = [
-  "round trip: bound a*S with S=max(||M||*||qacc||,|qfrc_smooth|,|qfrc_constraint|) (backward-error scale), a=1e-4 "
+  "round trip: bound a*S with S=max(1, max_i sum_j|M_ij||qacc_j|, |qfrc_smooth|, |qfrc_constraint|, |qfrc_bias|, |qfrc_passive|) "
+  "(row-wise backward-error scale; never below a tenth of the norm-wise a*max(||M||*||qacc||,...)), a=1e-4 "
   "constraint-free, a=3e-3 constrained and converged (forward solver tolerance); violation above 30x; differential: 1e-4 / "
   "1e-3 of the scale of the cancelling terms",
-  "INVDISCRETE: the discrete acceleration is formed in float32 as (qvel+ - qvel)/h, its cancellation error eps32*|qvel|/h "
-  "times |M| is added to the bound",
+  "INVDISCRETE: the discrete acceleration is formed in float32 as (qvel+ - qvel)/h, its cancellation error eps32*|qvel_j|/h "
+  "propagated through |M| is added to the bound",
   "differential: MuJoCo 3.13 mj_inverse on the same state and the same qacc; noise floor from +-2ulp probes of qpos/qvel",
   "INVDISCRETE with the implicit integrator is rejected by MJWarp (NotImplementedError) and with RK4 by both engines: "
   "counted as rejected, not as findings",
   "muscles are excluded (the open C08 finding implicit:actuator_vel_derivative_muscle_gain_missing would otherwise be "
   "re-reported through the discrete->continuous conversion); worlds where MuJoCo 3.13 applies its extra implicit treatment "
   "of free bodies are skipped for oracle II",
+  "nl family: polynomial coefficients are written into the compiled MjModel (dof_dampingpoly, jnt_stiffnesspoly, "
+  "tendon_dampingpoly, tendon_stiffnesspoly; all dofs of a joint get the same pair, as the MJCF compiler does); MuJoCo 3.13 "
+  "implements the same polynomial terms and is the reference of oracle II; coefficients are non-negative",
+  "a world counts as 'poly term observable' when h*(dF/dv - F/v)*|qacc| of the polynomial joint damping exceeds the violation "
+  "line (30 x bound): only there can a wrong implicit-damping coefficient be seen; the requirement asks for such worlds",
 ]
 BUDGET = {"quick": 240, "thorough": 1200}
 
@@ -74,6 +90,16 @@ P_SOFT = gen.profile(
 )
 
 
+# non-linear passive family: more dampers and tendons (with armature) than the base profiles
+P_NLFREE = dict(P_FREE, p_damping=0.8, p_spring=0.6, tendon_fixed=0.6, tendon_spatial=0.4, p_tendon_armature=0.5)
+P_NLSOFT = dict(P_SOFT, p_damping=0.8, p_spring=0.6, tendon_fixed=0.6, tendon_spatial=0.4, p_tendon_armature=0.5)
+
+# (integrator, invdiscrete, EULERDAMP disabled)
+NL_COMBOS = [("Euler", 1, 0), ("implicitfast", 1, 0), ("Euler", 1, 1), ("Euler", 0, 0), ("Euler", 1, 0), ("implicitfast", 1, 0), ("implicitfast", 0, 0), ("implicit", 0, 0), ("Euler", 1, 0), ("implicitfast", 1, 0), ("Euler", 1, 1), ("RK4", 0, 0)]
+# (integrator, invdiscrete, EULERDAMP disabled, disable flag)
+NLFLAG_COMBOS = [("Euler", 1, 0, "DAMPER"), ("implicitfast", 1, 0, "DAMPER"), ("Euler", 1, 0, "SPRING"), ("implicitfast", 1, 0, "SPRING"), ("Euler", 1, 1, "DAMPER"), ("Euler", 0, 0, "DAMPER"), ("Euler", 1, 0, "DAMPER"), ("implicitfast", 0, 0, "DAMPER")]
+
+
 def cases(tier, seed):
   nf, ns, nc = (64, 32, 16) if tier == "quick" else (1600, 800, 400)
   combos = [("Euler", 0), ("Euler", 1), ("implicitfast", 1), ("implicitfast", 0), ("Euler", 1), ("implicit", 0), ("implicitfast", 1), ("RK4", 0)]
@@ -85,7 +111,74 @@ def cases(tier, seed):
   # expected rejections are exercised too
   out.append({"id": f"rej{seed}_0", "kind": "free", "seed": seed * 100000 + 90000, "integrator": "implicit", "invdiscrete": 1, "eulerdamp": 0, "weight": 1})
   out.append({"id": f"rej{seed}_1", "kind": "free", "seed": seed * 100000 + 90001, "integrator": "RK4", "invdiscrete": 1, "eulerdamp": 0, "weight": 1})
+  # non-linear passive terms (polynomial damping / stiffness on joints and tendons, tendon armature)
+  nnf, nns, nnd = (48, 12, 16) if tier == "quick" else (1200, 300, 160)
+  for kind, cnt, off in (("free", nnf, 50000), ("soft", nns, 60000)):
+    for i in range(cnt):
+      integ, disc, ed = NL_COMBOS[i % len(NL_COMBOS)]
+      out.append({"id": f"nl{kind}{seed}_{i}", "kind": kind, "nl": 1, "seed": seed * 100000 + off + i, "integrator": integ, "invdiscrete": disc, "eulerdamp": ed, "weight": 1 if kind == "free" else 2})
+  for i in range(nnd):
+    integ, disc, ed, flag = NLFLAG_COMBOS[i % len(NLFLAG_COMBOS)]
+    out.append({"id": f"nlflag{seed}_{i}", "kind": "free", "nl": 1, "dsbl": flag, "seed": seed * 100000 + 70000 + i, "integrator": integ, "invdiscrete": disc, "eulerdamp": ed, "weight": 1})
+  out.append({"id": f"rej{seed}_2", "kind": "free", "nl": 1, "seed": seed * 100000 + 90002, "integrator": "implicit", "invdiscrete": 1, "eulerdamp": 0, "weight": 1})
   return out
+
+
+def add_nonlinear_passive(mjm, rng):
+  """Random polynomial damping / stiffness coefficients on the compiled model (what MJCF damping="b p0 p1" and
+  stiffness="k p0 p1" on <joint> and tendons compile to).  Returns the set of features switched on."""
+  feat = set()
+
+  def pair(lo0, hi0, lo1, hi1):
+    p = np.array([rng.uniform(lo0, hi0), rng.uniform(lo1, hi1)])
+    z = rng.random()
+    if z < 0.15:
+      p[0] = 0.0  # cubic term only
+    elif z < 0.3:
+      p[1] = 0.0  # quadratic term only
+    return p
+
+  for j in range(mjm.njnt):
+    nd = {int(mujoco.mjtJoint.mjJNT_FREE): 6, int(mujoco.mjtJoint.mjJNT_BALL): 3}.get(int(mjm.jnt_type[j]), 1)
+    a = int(mjm.jnt_dofadr[j])
+    if rng.random() < 0.75:
+      mjm.dof_dampingpoly[a : a + nd] = pair(0.05, 2.0, 0.02, 0.5)
+      feat.add("nl:dof_dampingpoly")
+      z = rng.random()
+      if z < 0.25:
+        mjm.dof_damping[a : a + nd] = 0.0
+        feat.add("nl:dof_dampingpoly_linear0")
+      elif mjm.dof_damping[a] == 0 and z < 0.6:
+        mjm.dof_damping[a : a + nd] = rng.uniform(0.05, 3)
+    if rng.random() < 0.5:
+      mjm.jnt_stiffnesspoly[j] = pair(0.5, 10.0, 0.5, 10.0)
+      feat.add("nl:jnt_stiffnesspoly")
+      if mjm.jnt_stiffness[j] != 0 and rng.random() < 0.25:
+        mjm.jnt_stiffness[j] = 0.0
+        feat.add("nl:jnt_stiffnesspoly_linear0")
+  if feat & {"nl:dof_dampingpoly"} and rng.random() < 0.2:
+    mjm.dof_damping[:] = 0.0  # no linear joint damping anywhere: only the polynomial terms make the step implicit
+    feat.add("nl:all_linear_dof_damping_0")
+  for t in range(mjm.ntendon):
+    if rng.random() < 0.7:
+      mjm.tendon_dampingpoly[t] = pair(0.05, 2.0, 0.02, 0.5)
+      feat.add("nl:tendon_dampingpoly")
+      if rng.random() < 0.25:
+        mjm.tendon_damping[t] = 0.0
+        feat.add("nl:tendon_dampingpoly_linear0")
+    if rng.random() < 0.5:
+      mjm.tendon_stiffnesspoly[t] = pair(1.0, 20.0, 1.0, 20.0)
+      feat.add("nl:tendon_stiffnesspoly")
+  if mjm.ntendon and np.any(mjm.tendon_armature > 0):
+    feat.add("nl:tendon_armature")
+  return feat
+
+
+def damping_terms(mjm, qvel):
+  """Per-dof joint damping of the state: (F/v, dF/dv) = (b + p0|v| + p1 v^2, b + 2 p0|v| + 3 p1 v^2)."""
+  v = np.abs(np.asarray(qvel, dtype=np.float64)[: mjm.nv])
+  b, p = np.array(mjm.dof_damping, dtype=np.float64), np.array(mjm.dof_dampingpoly, dtype=np.float64).reshape(mjm.nv, 2)
+  return b + p[:, 0] * v + p[:, 1] * v * v, b + 2 * p[:, 0] * v + 3 * p[:, 1] * v * v
 
 
 def build_model(case, rng):
@@ -97,9 +190,19 @@ def build_model(case, rng):
     mjm = mujoco.MjModel.from_xml_string(xml)
     feat = ["contact_scene", "joint:free"]
   else:
-    xml, mjm, feat, _ = gen.make_model(case["seed"], P_FREE if kind == "free" else P_SOFT, accept=_step.well_conditioned)
+    if case.get("nl"):
+      P = P_NLFREE if kind == "free" else P_NLSOFT
+    else:
+      P = P_FREE if kind == "free" else P_SOFT
+    xml, mjm, feat, _ = gen.make_model(case["seed"], P, accept=_step.well_conditioned)
     if mjm is None:
       return None, None, None
+  feat = list(feat)
+  if case.get("nl"):
+    feat += sorted(add_nonlinear_passive(mjm, rng))
+  if case.get("dsbl"):
+    mjm.opt.disableflags |= int(getattr(mujoco.mjtDisableBit, "mjDSBL_" + case["dsbl"]))
+    feat.append("nl:disable_" + case["dsbl"])
   mjm.opt.integrator = INT_ENUM[case["integrator"]]
   if case["invdiscrete"]:
     mjm.opt.enableflags |= int(mujoco.mjtEnableBit.mjENBL_INVDISCRETE)
@@ -161,6 +264,7 @@ def run_case(case):
   fwd = {k: np.array(mw.npy(getattr(d, k))) for k in ("qacc", "qfrc_smooth", "qfrc_passive", "qfrc_bias", "qfrc_constraint", "qfrc_actuator", "qfrc_applied", "nefc", "overflow", "M")}
   qacc_in = fwd["qacc"].copy()
   cancel = np.zeros(nworld)
+  cancel_dof = np.zeros((nworld, nv))
   if disc:
     # the acceleration that the real step used: (qvel+ - qvel)/h in float32
     d1 = mw.make_data(mjm, m, states, **caps)
@@ -173,6 +277,7 @@ def run_case(case):
     qv0 = np.stack([s["qvel"] for s in states]).astype(np.float32)
     qacc_in = ((qv1[:, :nv] - qv0) / np.float32(h)).astype(np.float32)
     cancel = np.finfo(np.float32).eps * np.maximum(np.abs(qv0).max(axis=1, initial=0), np.abs(qv1[:, :nv]).max(axis=1, initial=0)) / h
+    cancel_dof = np.finfo(np.float32).eps * np.maximum(np.abs(qv0), np.abs(qv1[:, :nv])).astype(np.float64) / h
     wp.copy(d.qacc, wp.array(qacc_in, dtype=float))
   try:
     mjw.inverse(m, d)
@@ -185,6 +290,20 @@ def run_case(case):
   qacc_after = np.array(mw.npy(d.qacc))
   nefc_inv = np.array(mw.npy(d.nefc))
   judged_I = judged_II = 0
+  nl = bool(case.get("nl"))
+  dsbl = case.get("dsbl")
+  passive_observable = 0
+  nlterm = np.zeros(nworld)  # non-linear part of the implicit joint-damping term, per world
+  line = np.full(nworld, np.inf)  # lowest violation line among the oracles that judged the world
+  line_I = np.full(nworld, np.inf)  # violation line of the round trip alone
+  mjm_lin = None
+  if nl:
+    # the same model without the polynomial coefficients: measures how much of the passive force is non-linear
+    import copy
+
+    mjm_lin = copy.copy(mjm)
+    for k in ("dof_dampingpoly", "jnt_stiffnesspoly", "tendon_dampingpoly", "tendon_stiffnesspoly"):
+      getattr(mjm_lin, k)[:] = 0.0
   for w, st in enumerate(states):
     Md = mw.dense_M(mjm, fwd["M"][w])
     ovf = int(fwd["overflow"][w])
@@ -204,21 +323,51 @@ def run_case(case):
       S = max(1.0, float(np.abs(Md @ fwd["qacc"][w][:nv].astype(np.float64)).max(initial=0)), float(np.abs(fwd["qfrc_smooth"][w]).max(initial=0)), float(np.abs(fwd["qfrc_constraint"][w]).max(initial=0)))
       S = max(S, float(np.abs(Md).sum(axis=1).max()) * float(np.abs(fwd["qacc"][w][:nv]).max(initial=0)))  # backward-error scale
       a = 3e-3 if constrained else 1e-4
-      bound = a * S + 4 * cancel[w] * float(np.abs(Md).sum(axis=1).max())
+      bound_norm = a * S + 4 * cancel[w] * float(np.abs(Md).sum(axis=1).max())
+      # row-wise backward-error scale: max_i sum_j |M_ij| |qacc_j| instead of ||M|| * max|qacc| (a heavy dof next to a light,
+      # strongly accelerated one inflates the norm product by orders of magnitude and would hide wrong terms on the light
+      # dof), the largest force term, and the float32 cancellation of (qvel+ - qvel)/h propagated through |M| per dof.
+      # Never less than a tenth of the norm-wise bound.
+      absM = np.abs(Md)
+      S_row = max(1.0, float((absM @ np.abs(fwd["qacc"][w][:nv].astype(np.float64))).max(initial=0)), float((absM @ np.abs(qacc_in[w][:nv].astype(np.float64))).max(initial=0)), *[float(np.abs(fwd[k][w]).max(initial=0)) for k in ("qfrc_smooth", "qfrc_constraint", "qfrc_bias", "qfrc_passive")])
+      bound = max(a * S_row + 4 * float((absM @ cancel_dof[w]).max(initial=0)), 0.1 * bound_norm)
       rec.check()
       g = got[w][:nv].astype(np.float64)
       err = float(np.abs(g - expected[:nv]).max()) if np.all(np.isfinite(g)) else float("inf")
       name = ("roundtrip_discrete" if disc else "roundtrip") + ("_constrained" if constrained else "")
       rec.worst(name, err / bound)
       judged_I += 1
+      coef, deriv = damping_terms(mjm, st["qvel"])
+      if nl:
+        # part of the step's implicit joint-damping term that exists only because the damping is non-linear
+        nlterm[w] = float((h * (deriv - coef) * np.abs(qacc_in[w][:nv].astype(np.float64))).max(initial=0))
+        line[w] = line_I[w] = 30 * bound
+        dl = mujoco.MjData(mjm_lin)
+        mw.apply_state_mj(mjm_lin, dl, st)
+        mujoco.mj_forward(mjm_lin, dl)
+        if float(np.abs(fwd["qfrc_passive"][w][:nv] - dl.qfrc_passive).max(initial=0)) > 30 * bound:
+          passive_observable += 1
       if err > 30 * bound:
         i = int(np.argmax(np.abs(g - expected[:nv]))) if np.isfinite(err) else 0
-        rec.viol(f"{name}[{integ}]", f"qfrc_inverse differs from qfrc_applied+J'xfrc+qfrc_actuator by {err:.3g} (> 30 x bound {bound:.3g}, S={S:.3g}) at dof {i} world {w}; invdiscrete={disc} integrator={integ} nefc={int(fwd['nefc'][w])}", got=g[max(0, i - 2) : i + 3], expected=expected[max(0, i - 2) : i + 3])
+        sig = f"{name}[{integ}]"
+        if disc and integ == "Euler" and dsbl == "DAMPER" and not case["eulerdamp"] and np.isfinite(err):
+          # mechanism test: discrete_acc() applied (M + h*D) qacc although euler() skipped the implicit damping because
+          # the DAMPER disable flag is set => qfrc_inverse - expected = h * D * qacc_discrete
+          r = g - expected[:nv]
+          hyp = h * deriv * qacc_in[w][:nv].astype(np.float64)
+          if float(np.abs(r - hyp).max()) <= 0.05 * float(np.abs(r).max()) + bound:
+            sig = "discrete_acc[Euler]:implicit_damping_applied_although_DAMPER_disabled"
+        rec.viol(sig, f"qfrc_inverse differs from qfrc_applied+J'xfrc+qfrc_actuator by {err:.3g} (> 30 x bound {bound:.3g}, S={S:.3g}) at dof {i} world {w}; invdiscrete={disc} integrator={integ} nefc={int(fwd['nefc'][w])}", got=g[max(0, i - 2) : i + 3], expected=expected[max(0, i - 2) : i + 3])
       elif err > bound:
         rec.inconcl(f"{name}: between bound and violation line")
     # ---- II differential with the same qacc
     if disc and _step.mujoco_extra_treatment(mjm, st):
       rec.count("worlds_skew_mujoco313_implicit_extra_treatment")
+      continue
+    if disc and integ == "Euler" and dsbl == "DAMPER" and not case["eulerdamp"]:
+      # MuJoCo 3.13's mj_discreteAcc applies (M + h*D) here although mj_Euler skipped the implicit damping (measured: its own
+      # step -> inverse round trip is off by h*D*qacc): not a reference for this configuration, the round trip judges it
+      rec.count("worlds_reference_discreteAcc_ignores_DAMPER_flag")
       continue
     qa = qacc_in[w][:nv].astype(np.float64)
 
@@ -239,8 +388,10 @@ def run_case(case):
     terms = max(1.0, float(ref["terms"].max()))
     name = "qfrc_inverse_discrete" if disc else "qfrc_inverse"
     allow = 1e-3 if int(ref["struct"][3]) else 1e-4
-    cmp.judge(rec, name, np.append(got[w][:nv].astype(np.float64), terms), np.append(ref["qfrc_inverse"], terms), allow, noise["qfrc_inverse"], sig_prefix=f"{integ}:", ctx=f"world {w} invdiscrete={disc} nefc={int(ref['struct'][3])}")
+    verdict = cmp.judge(rec, name, np.append(got[w][:nv].astype(np.float64), terms), np.append(ref["qfrc_inverse"], terms), allow, noise["qfrc_inverse"], sig_prefix=f"{integ}:", ctx=f"world {w} invdiscrete={disc} nefc={int(ref['struct'][3])}")
     judged_II += 1
+    if nl and verdict != "incon" and np.isfinite(noise["qfrc_inverse"]):
+      line[w] = min(line[w], cmp.VIOL_FACTOR * (allow * max(terms, float(np.abs(ref["qfrc_inverse"]).max(initial=0))) + cmp.C_NOISE * noise["qfrc_inverse"]))
   tag = f"{integ}:{'discrete' if disc else 'continuous'}"
   rec.cover("roundtrip_worlds:" + tag, judged_I)
   rec.cover("differential_worlds:" + tag, judged_II)
@@ -251,9 +402,23 @@ def run_case(case):
     rec.cover("discrete_euler:eulerdamp_" + ("off" if case["eulerdamp"] else "on"), 1)
   for f in feat:
     rec.cover("features", f)
+  if nl:
+    ntag = tag + (":eulerdamp_" + ("off" if case["eulerdamp"] else "on") if disc and integ == "Euler" else "") + (":disable_" + dsbl if dsbl else "")
+    rec.cover("nl:roundtrip_worlds:" + ntag, judged_I)
+    rec.cover("nl:differential_worlds:" + ntag, judged_II)
+    rec.cover("nl:nonlinear_passive_force_observable_worlds", passive_observable)
+    if disc and dsbl != "DAMPER" and (integ == "implicitfast" or (integ == "Euler" and not case["eulerdamp"])):
+      # worlds in which the step integrated polynomial joint damping implicitly and the non-linear part of that term is
+      # above the violation line of an oracle that judged the world
+      rec.cover(f"nl:poly_implicit_damping_term_observable_worlds:{integ}", int(np.sum(nlterm > line)))
+      rec.cover(f"nl:poly_implicit_damping_term_observable_worlds_roundtrip_only:{integ}", int(np.sum(nlterm > line_I)))
+    if judged_I or judged_II:
+      for f in feat:
+        if f.startswith("nl:") or f in ("tendon_damping", "tendon_spring"):
+          rec.cover("nl:judged_cases_with:" + f.replace("nl:", ""), 1)
   if nv >= 2 and judged_I and judged_II:
-    rec.nontrivial(xml, integ, disc, case["eulerdamp"], *[s["qpos"] for s in states], *[s["qvel"] for s in states])
-  rec.sample = {"kind": case["kind"], "integrator": integ, "invdiscrete": disc, "nv": nv, "nu": mjm.nu, "nefc": fwd["nefc"].tolist(), "roundtrip_worlds": judged_I, "differential_worlds": judged_II}
+    rec.nontrivial(xml, integ, disc, case["eulerdamp"], dsbl, mjm.dof_damping, mjm.dof_dampingpoly, mjm.jnt_stiffnesspoly, mjm.tendon_dampingpoly, mjm.tendon_stiffnesspoly, *[s["qpos"] for s in states], *[s["qvel"] for s in states])
+  rec.sample = {"kind": case["kind"], "nl": nl, "disable": dsbl, "integrator": integ, "invdiscrete": disc, "nv": nv, "nu": mjm.nu, "nefc": fwd["nefc"].tolist(), "roundtrip_worlds": judged_I, "differential_worlds": judged_II}
   return rec.result()
 
 
@@ -270,6 +435,20 @@ def requirements(agg, tier):
   for k in ("discrete_euler:eulerdamp_on", "discrete_euler:eulerdamp_off"):
     if not cov.get(k):
       unmet.append(f"never observed: {k}")
+  # non-linear passive family: must have been judged in every configuration, with terms large enough to be seen
+  for ntag in ("Euler:discrete:eulerdamp_on", "Euler:discrete:eulerdamp_off", "implicitfast:discrete", "Euler:continuous", "implicitfast:continuous", "Euler:discrete:eulerdamp_on:disable_DAMPER", "implicitfast:discrete:disable_DAMPER", "Euler:discrete:eulerdamp_on:disable_SPRING"):
+    if cov.get("nl:roundtrip_worlds:" + ntag, 0) < 3:
+      unmet.append(f"non-linear passive terms: fewer than 3 round-trip worlds for {ntag}")
+    if cov.get("nl:differential_worlds:" + ntag, 0) < 3 and ntag != "Euler:discrete:eulerdamp_on:disable_DAMPER":  # no reference there
+      unmet.append(f"non-linear passive terms: fewer than 3 differential worlds for {ntag}")
+  for integ in ("Euler", "implicitfast"):
+    if cov.get(f"nl:poly_implicit_damping_term_observable_worlds:{integ}", 0) < 6:
+      unmet.append(f"polynomial joint damping: fewer than 6 {integ} INVDISCRETE worlds where the non-linear part of the implicit damping term exceeds the violation line")
+  if cov.get("nl:nonlinear_passive_force_observable_worlds", 0) < 30:
+    unmet.append("fewer than 30 worlds whose polynomial passive force exceeds the violation line")
+  for f in ("dof_dampingpoly", "dof_dampingpoly_linear0", "all_linear_dof_damping_0", "jnt_stiffnesspoly", "tendon_dampingpoly", "tendon_stiffnesspoly", "tendon_armature", "tendon_damping"):
+    if cov.get("nl:judged_cases_with:" + f, 0) < 2:
+      unmet.append(f"non-linear passive terms: fewer than 2 judged cases with {f}")
   if "invdiscrete+implicit" not in cov.get("rejections", []) and tier == "quick":
     unmet.append("expected rejection invdiscrete+implicit not observed (behaviour changed: extend the workload)")
   if agg["distinct"] < 30:
